@@ -36,6 +36,7 @@ struct Req {
 	std::string path = "/echo";       // raw (still percent-encoded) path after the script name
 	bool has_query = false; std::string query;
 	Pairs headers;                    // extra request headers (name as sent, value as sent), model-safe sub-language
+	std::vector<int> fold;            // HTTP only, per header: > 0 = send the value folded (obs-fold: CRLF SP replaces its first space outside quotes/comments, RFC 7230 3.2.4 - the receiver reads a single space); 2 = two folds
 	Pairs cookies;                    // name=value (token / simple quoted values)
 	std::vector<int> cookie_quoted;   // per cookie: send value quoted
 	std::string content_type;         // empty = none
@@ -114,7 +115,9 @@ inline std::string multipart_body(const Req &r){
 inline std::string http_encode(const Req &r,bool http11,bool keepalive){
 	std::string s = r.method + " " + r.script + r.path + (r.has_query ? "?" + r.query : "") + (http11 ? " HTTP/1.1\r\n" : " HTTP/1.0\r\n");
 	s += "Host: sim.example\r\n";
-	for(auto &h:r.headers) s += h.first + ": " + h.second + "\r\n";
+	for(size_t i=0;i<r.headers.size();i++){ const auto &h = r.headers[i]; std::string v = h.second; int nf = i < r.fold.size() ? r.fold[i] : 0;
+		for(size_t p=1;nf > 0 && p + 1 < v.size();p++){ if(v[p] == '"' || v[p] == '(') break; if(v[p] == ' ' && v[p-1] != ' ' && v[p+1] != ' '){ v.replace(p,1,"\r\n "); p += 2; nf--; } }
+		s += h.first + ": " + v + "\r\n"; }
 	s += r.raw_extra_headers;
 	if(!r.cookies.empty()) s += "Cookie: " + cookie_header(r) + "\r\n";
 	if(!r.content_type.empty()) s += "Content-Type: " + r.content_type + "\r\n";
